@@ -1,5 +1,7 @@
-// Correspondence driver for C18: builds REAL nodeconf services (one per participant: every node of the
-// configuration and a client) through Service.Init -> setLastConfiguration -> сonfigurationToNodeConf, asks each of
+// Correspondence driver for C18: builds REAL nodeconf services (one per participant: every node of the tested or
+// of an earlier configuration and a client), leads each of them through its own HISTORY of 1..4 configurations
+// (Service.Init -> setLastConfiguration -> сonfigurationToNodeConf, then Run -> updateConfiguration -> ... ->
+// setLastConfiguration once per further configuration), and after the last one asks each of
 // them ReplKey / Partition / NodeIds / IsResponsible for a list of space ids, reads the full
 // CHash().GetPartitionMembers table, and writes all of it as Coq cases together with Go's xxhash64 of exactly the
 // byte strings go-chash hashes (fmt.Sprint(id, i), fmt.Sprint("p", i), the replication key), so the Gallina model
